@@ -88,7 +88,35 @@ def _lock_region(node: ast.AST, par: dict[int, ast.AST]) -> ast.With | None:
     return None
 
 
+_NS_CACHE: dict = {}
+
+
 def _under_not_shared(node: ast.AST, par: dict[int, ast.AST]) -> bool:
+    """`node` only runs when `self.shared` is false: inside `if not self.shared:` or after `if self.shared: ... return`."""
+    # find the enclosing function definition to ask the CFG for the facts that hold at the node
+    x = node
+    fdef = None
+    while id(x) in par:
+        x = par[id(x)]
+        if isinstance(x, (ast.FunctionDef, ast.AsyncFunctionDef)):
+            fdef = x
+    if fdef is None and isinstance(x, (ast.FunctionDef, ast.AsyncFunctionDef)):
+        fdef = x
+    if fdef is not None:
+        from ..cfg import CFG as _CFG
+        from ..flow import guard_facts as _gf
+
+        key = id(fdef)
+        if key not in _NS_CACHE:
+            try:
+                _NS_CACHE[key] = _CFG(fdef)
+            except Exception:  # noqa: BLE001
+                _NS_CACHE[key] = None
+        cfg = _NS_CACHE[key]
+        if cfg is not None:
+            n = cfg.node_containing(node)
+            if n is not None and any(t == "self.shared" and not pol for t, pol in _gf(cfg, Defs(ast.Module(body=[], type_ignores=[])), n)):
+                return True
     x = node
     while id(x) in par:
         child, x = x, par[id(x)]
